@@ -7,7 +7,7 @@ and the implementation is compared with that composition (class B, rounding-leve
 by the size of the exponent) — kind "corr".  Independently the property's own clauses are evaluated
 on the implementation's output against mpmath's gamma / loggamma / gammainc (kind "prop").
 """
-import math, random, sys
+import math, os, random, sys
 from fractions import Fraction
 from common import *
 
@@ -47,11 +47,14 @@ DBL_MIN = 2.2250738585072014e-308
 EPSF = 2.0 ** -53
 
 # tolerances (K in units of 2^-53 times the scale); calibrated on the unchanged tree, x16 safety
-K_FACT = 4            # |Factorial(n) - n!| <= (n/2+K) ulp-ish: chain of n roundings
+ULP_FACT = 8          # Factorial(n) vs n!: worst observed 5.9 ulp (audit), n <= 170
 K_GLN = 64
 K_Q = 128
-K_REC = 128
-TOL_LN = 1e-12        # GammaLn vs loggamma: abs + rel
+K_MONO = 8            # monotone in x, a <= 100: rounding noise of the formula (audit: <= 5e-14), K_Q/16
+MONO_A_LARGE = 1e-11  # monotone in x, a > 100 (audit: noise <= 2.7e-12 after fix 317093f)
+K_REC = 128           # GammaLn(x+1) = GammaLn(x) + log x
+ULP_GREC = 16         # Gamma(x+1) = x Gamma(x) in ulp (std::tgamma after fix a972610)
+TOL_LN = 1e-14        # GammaLn / Gamma vs reference: relative (+ absolute near the zeros of lnGamma)
 TOL_A_SMALL = 1e-12   # a <= 100
 TOL_A_LARGE = 1e-3    # a > 100
 TOL_INV_SMALL = 1e-7
@@ -60,7 +63,18 @@ A100_Q = "a>100 quadrature branch: GammaQ/GammaP differs from the reference by m
 A100_NAN = "a>100: Inv_GammaP/Inv_GammaQ returns NaN"
 A100_INV = "a>100: P(Inv_GammaP(p,a),a) differs from p by more than 1e-3"
 TOL_BIG_BINOM = 2e-11
-ULP_BINOM = 80        # "a few ulp" for n <= 170: three factorials of up to 170 roundings each, two divisions
+ULP_BINOM = 8         # "a few ulp" for n <= 170 (audit: worst 7.3)
+ULP_BINOM_LAWS = 6    # symmetry and Pascal's rule for n <= 170 (audit: worst 4)
+# OPEN DEFECTS of /repo with a repair proposed but not yet applied: while True the clause keeps its former slack and is
+# listed in the evidence (ASSUMPTIONS); set to False when the patch is in /repo: the clause then is the literal statement.
+_FIXED = set(os.environ.get("LP_ASSUME_FIXED", "").split(","))   # rehearsal of a proposed patch: LP_ASSUME_FIXED=C06-1,C06-2
+PENDING_BINOM_171 = "C06-1" not in _FIXED     # defect 9: Binomial_Coefficient for 171 <= n <= 400 through exp(GammaLn..): thousands of ulp (fixprop-C06-1)
+PENDING_GAMMALN_TINY = "C06-2" not in _FIXED  # defect 15: GammaLn(x) = inf for x < 4.6e-307 (fixprop-C06-2); the generator stays at x >= 1e-300
+ASSUMPTIONS += [t for f, t in (
+    (PENDING_BINOM_171, "OPEN DEFECT 9 (repair proposed, fixprop-C06-1): Binomial_Coefficient, its symmetry and Pascal's rule for 171 <= n <= 400 are judged at "
+                        "2e-11 relative (exp of GammaLn differences); after the repair: 8 / 6 ulp as for n <= 170"),
+    (PENDING_GAMMALN_TINY, "OPEN DEFECT 15 (repair proposed, fixprop-C06-2): GammaLn(x) = inf for x < 4.6e-307, so GammaLn is generated for x >= 1e-300 and the shape "
+                           "parameter of P/Q for a >= 1e-17 only; after the repair: every positive double")) if f]
 
 
 def ratio(ctx, clause, err, tol):
@@ -155,6 +169,11 @@ def generate(tier, seed, ctx):
             R.append("c06.gamma %s" % hx(x))
     for x in [10.0 ** rng.uniform(4, 300) for _ in range(40)]:
         R.append("c06.gammaln %s" % hx(x))
+    if not PENDING_GAMMALN_TINY:
+        for x in [5e-324, 1e-320, 1e-310, 2.2250738585072014e-308, 1e-307, 4.5e-307, 4.7e-307] + [10.0 ** rng.uniform(-323, -300) for _ in range(40)]:
+            R.append("c06.gammaln %s" % hx(x))
+        for _ in range(60):
+            R.append("c06.gammap %s %s" % (hx(10.0 ** rng.uniform(-3, 1)), hx(10.0 ** rng.uniform(-320, -17))))
     for x in [0.0, -0.0, -1.0, -0.5, -1e-300, -1e300, -5e-324]:
         R.append("c06.gammaln %s" % hx(x))
         R.append("c06.gamma %s" % hx(x))
@@ -171,7 +190,7 @@ def generate(tier, seed, ctx):
     def draw_a():
         c = rng.random()
         if c < 0.30:
-            return 10.0 ** rng.uniform(-8, 2)
+            return 10.0 ** rng.uniform(-17, 2)
         if c < 0.50:
             return rng.uniform(0.05, 100)
         if c < 0.62:
@@ -377,9 +396,9 @@ def model_Q(x, a, mt):
     return br, v, 1 - v, S * v
 
 
-def binom_tol(n, ex):
+def binom_tol(n, ex, ulps=ULP_BINOM):
     """few ulp for n<=170 (below one unit this forces the exact integer), 2e-11 relative for n>170"""
-    t = ULP_BINOM * 2 * EPS * ex if n <= 170 else Fraction(TOL_BIG_BINOM) * ex
+    t = ulps * 2 * EPS * ex if (n <= 170 or not PENDING_BINOM_171) else Fraction(TOL_BIG_BINOM) * ex
     return t if t >= 1 else Fraction(1, 2)
 
 
@@ -455,7 +474,7 @@ def _check(op, a, ti, mt, ctx, rq):
         n = int(a[0]); v = fl(ti[0]); size = int(ti[1])
         ctx["fresh"][n] = v
         ex = Fraction(math.factorial(n))
-        if not ratio(ctx, "Factorial(n) = n! to a few ulp", abs(Fraction(v) - ex), (K_FACT + n / 2) * EPS * ex * 2):
+        if not ratio(ctx, "Factorial(n) = n! to a few ulp", abs(Fraction(v) - ex), ULP_FACT * 2 * EPS * ex):
             out.append(fail("prop", "Factorial(n) is not n! to a few ulp", "n=%d got %r" % (n, v)))
         if n >= 1 and n - 1 in ctx["fresh"]:
             w = ctx["fresh"][n - 1]
@@ -475,7 +494,7 @@ def _check(op, a, ti, mt, ctx, rq):
                 out.append(fail("prop", "Factorial(n) depends on the call history (not bit-identical to a fresh call)",
                                 "n=%d fresh=%r in-history=%r" % (n, f, v)))
                 break
-            if not close(v, Fraction(math.factorial(n)), Fraction(math.factorial(n)), 2 * K_FACT + n):
+            if not close(v, Fraction(math.factorial(n)), Fraction(math.factorial(n)), 2 * ULP_FACT):
                 out.append(fail("prop", "Factorial(n) in a call history is not n!", "n=%d got %r" % (n, v)))
                 break
         if mt is not None:
@@ -488,7 +507,7 @@ def _check(op, a, ti, mt, ctx, rq):
         ctx["binom"][(n, k)] = v
         ex = Fraction(math.comb(n, k)) if 0 <= k <= n else Fraction(0)
         if not ratio(ctx, "Binomial vs exact integer (n%s170)" % ("<=" if n <= 170 else ">"), abs(Fraction(v) - ex), binom_tol(n, ex)):
-            out.append(fail("prop", "Binomial_Coefficient differs from C(n,k) beyond " + ("a few ulp" if n <= 170 else "2e-11 relative"),
+            out.append(fail("prop", "Binomial_Coefficient differs from C(n,k) beyond " + ("a few ulp" if (n <= 170 or not PENDING_BINOM_171) else "2e-11 relative"),
                             "C(%d,%d)=%d got %r" % (n, k, ex, v)))
         if n <= 170 and mt is not None and mt[0] != "big":
             if fr(mt[0]) != ex:
@@ -520,12 +539,8 @@ def _check(op, a, ti, mt, ctx, rq):
                 if not (math.isinf(v) and ref > 709.7) :
                     out.append(fail("prop", "Gamma overflows where the reference is finite", "x=%r" % x))
                 return out
-            if not ratio(ctx, "Gamma vs mpmath.gamma", abs(mpf(v) - gref), gref * (TOL_LN * (1 + abs(ref)))):
+            if not ratio(ctx, "Gamma vs mpmath.gamma", abs(mpf(v) - gref), gref * TOL_LN):
                 out.append(fail("prop", "Gamma disagrees with the reference gamma function", "x=%r got %r ref %s" % (x, v, mpmath.nstr(gref, 20))))
-            if mt is not None:
-                m, sc = glue_gln(Fraction(x), fr(mt[0]))
-                if not ratio(ctx, "Gamma vs exp(Lanczos model) (B)", abs(mpf(v) - mpmath.exp(m)), mpmath.exp(m) * K_GLN * EPSF * (sc + 2)):
-                    out.append(fail("corr", "Gamma differs from exp of the Lanczos model beyond rounding", "x=%r got %r" % (x, v)))
     elif op in ("c06.pser", "c06.qcf", "c06.qint"):
         x, s = fl(a[0]), fl(a[1]); v = fl(ti[0])
         X, S = Fraction(x), Fraction(s)
@@ -551,8 +566,8 @@ def _check(op, a, ti, mt, ctx, rq):
         if np.max(np.abs(xs - want)) > 1e-9 * s:
             out.append(fail("corr", "scan: abscissae are not the requested grid", ""))
         ok = xs > 0
-        if np.any(np.isnan(qs[ok])) or np.any(qs[ok] < -TOL_A_LARGE) or np.any(qs[ok] > 1 + TOL_A_LARGE):
-            i = int(np.argmax(np.isnan(qs) | (qs < -TOL_A_LARGE) | (qs > 1 + TOL_A_LARGE)))
+        if np.any(np.isnan(qs[ok])) or np.any(qs[ok] < 0) or np.any(qs[ok] > 1):
+            i = int(np.argmax(ok & (np.isnan(qs) | (qs < 0) | (qs > 1))))
             out.append(fail("prop", "GammaQ outside [0,1]", "x=%r a=%r got %r" % (float(xs[i]), s, float(qs[i]))))
             return out
         if np.any(ok):
@@ -577,23 +592,22 @@ def _check(op, a, ti, mt, ctx, rq):
         for nm, val, rf in (("Q", Q, rq_), ("P", P, rp_)):
             if val is None:
                 continue
-            if math.isnan(val) or not (0.0 <= val <= 1.0):
-                if not (s > 100 and not math.isnan(val) and -tol <= val <= 1 + tol):
-                    out.append(fail("prop", "Gamma%s outside [0,1]" % nm, "x=%r a=%r got %r" % (x, s, val)))
-                else:
-                    bump(ctx, "quadrature branch: value outside [0,1] within its 1e-3 accuracy")
+            if math.isnan(val) or not (0.0 <= val <= 1.0):      # exact for every a (fix 317093f)
+                out.append(fail("prop", "Gamma%s outside [0,1]" % nm, "x=%r a=%r got %r" % (x, s, val)))
             if not ratio(ctx, "Gamma%s vs mpmath.gammainc (a%s100)" % (nm, "<=" if s <= 100 else ">"), abs(mpf(val) - rf), tol):
                 out.append(fail("prop", A100_Q if s > 100 else "Gamma%s disagrees with the reference beyond 1e-12 (a<=100)" % nm, "x=%r a=%r got %r ref %s" % (x, s, val, mpmath.nstr(rf, 17))))
         if op == "c06.uplow":
-            if not ratio(ctx, "P+Q=1", abs(Fraction(P) + Fraction(Q) - 1), 2 * EPS):
+            if P + Q != 1.0:                                     # exact in double arithmetic (P is 1.0 - Q)
                 out.append(fail("prop", "GammaP + GammaQ is not 1", "x=%r a=%r P=%r Q=%r" % (x, s, P, Q)))
             if math.isfinite(G) and G > 0:
-                if not ratio(ctx, "Upper+Lower=Gamma", abs(Fraction(U) + Fraction(L) - Fraction(G)), 4 * EPS * Fraction(G)):
+                if not ratio(ctx, "Upper+Lower=Gamma", abs(Fraction(U) + Fraction(L) - Fraction(G)), 2 * EPS * Fraction(G)):   # 1 ulp
                     out.append(fail("prop", "Upper + Lower incomplete gamma is not Gamma", "x=%r s=%r U=%r L=%r G=%r" % (x, s, U, L, G)))
                 if U != G * Q or L != G * P:
                     out.append(fail("corr", "Upper/Lower_Incomplete_Gamma are not Gamma*Q / Gamma*P", ""))
         if mt is not None:
             br, q, p, sc = model_Q(X, S, mt)
+            if q is not None:                                    # the clamp of GammaQ (fix 317093f), as the model applies it
+                q = min(mpf(1), max(mpf(0), q)); p = 1 - q
             if br == "zero":
                 if (Q is not None and Q != 1.0) or (P is not None and P != 0.0):
                     out.append(fail("prop", "GammaQ(0,a) is not 1 / GammaP(0,a) is not 0", ""))
@@ -605,6 +619,8 @@ def _check(op, a, ti, mt, ctx, rq):
             # class A on the branch: the value must be bit-identical to the evaluator the model selects
             if op != "c06.uplow" and br != "zero":
                 sel = {"series": qser, "cf": qcf, "quad": qint}[br]
+                sel = sel if math.isnan(sel) else min(1.0, max(0.0, sel))
+                clampf = lambda w: w if math.isnan(w) else min(1.0, max(0.0, w))
                 got = Q if Q is not None else P
                 want = sel if Q is not None else 1.0 - sel
                 knife = br in ("series", "cf") and ((x < s + 1.0) != (X < S + 1))   # a+1.0 rounds in double
@@ -612,7 +628,7 @@ def _check(op, a, ti, mt, ctx, rq):
                     ctx["excused"] += 1
                 elif not math.isnan(sel) and got != want:
                     others = [n for n, w in (("series", qser), ("cf", qcf), ("quad", qint))
-                              if not math.isnan(w) and (w if Q is not None else 1.0 - w) == got]
+                              if not math.isnan(w) and (clampf(w) if Q is not None else 1.0 - clampf(w)) == got]
                     out.append(fail("corr", "GammaQ takes another branch than the model (%s expected%s)" % (br, ", value is that of " + others[0] if others else ""),
                                     "x=%r a=%r" % (x, s)))
     elif op in ("c06.invp", "c06.invq"):
@@ -636,9 +652,9 @@ def _check(op, a, ti, mt, ctx, rq):
                 ctx["excused"] += 1
                 bump(ctx, "inverse: exact preimage below the normal doubles (excluded)")
                 return out
-            tol = TOL_INV_SMALL if s <= 100 else TOL_A_LARGE
+            tol = TOL_INV_SMALL                                   # also for a > 100 (audit: worst 1.5e-9)
             if not ratio(ctx, "P(Inv_GammaP(p,a),a)=p (a%s100)" % ("<=" if s <= 100 else ">"), abs(Px - p), tol):
-                out.append(fail("prop", A100_INV if s > 100 else "P(Inv_GammaP(p,a),a) differs from p by more than 1e-7 (a<=100)", "p=%r a=%r x=%r P(x)=%r" % (p, s, x, Px)))
+                out.append(fail("prop", "P(Inv_GammaP(p,a),a) differs from p by more than 1e-7", "p=%r a=%r x=%r P(x)=%r" % (p, s, x, Px)))
             rp_ = ref_P(Fraction(x), S)
             if not ratio(ctx, "Pref(Inv_GammaP(p,a),a)=p (a%s100)" % ("<=" if s <= 100 else ">"), abs(rp_ - mpf(p)), tol + tolQ(s)):
                 out.append(fail("prop", A100_INV if s > 100 else "reference P at Inv_GammaP(p,a) differs from p by more than 1e-7 (a<=100)", "p=%r a=%r x=%r Pref(x)=%s" % (p, s, x, mpmath.nstr(rp_, 17))))
@@ -666,13 +682,13 @@ def finalize(ctx, exe):
         w = B.get((n, n - k))
         ex = Fraction(math.comb(n, k))
         big = " (n>170)" if n > 170 else " (n<=170)"
-        if w is not None and not ratio(ctx, "binomial symmetry" + big, abs(Fraction(v) - Fraction(w)), 2 * binom_tol(n, ex)):
+        if w is not None and not ratio(ctx, "binomial symmetry" + big, abs(Fraction(v) - Fraction(w)), binom_tol(n, ex, ULP_BINOM_LAWS) * (2 if n > 170 and PENDING_BINOM_171 else 1)):
             out.append(dict(fail("prop", "Binomial_Coefficient is not symmetric: C(n,k) != C(n,n-k)", "n=%d k=%d %r vs %r" % (n, k, v, w)), req="c06.binom %d %d" % (n, k)))
         if n >= 1 and 1 <= k <= n - 1:
             u1, u2 = B.get((n - 1, k - 1)), B.get((n - 1, k))
             if u1 is not None and u2 is not None:
                 big = " (n>170)" if n > 170 else " (n<=170)"
-                if not ratio(ctx, "Pascal's rule" + big, abs(Fraction(v) - Fraction(u1) - Fraction(u2)), 2 * binom_tol(n, ex) + (0 if ex < 2 ** 52 else 2 * EPS * ex)):
+                if not ratio(ctx, "Pascal's rule" + big, abs(Fraction(v) - Fraction(u1) - Fraction(u2)), binom_tol(n, ex, ULP_BINOM_LAWS) * (2 if n > 170 and PENDING_BINOM_171 else 1)):
                     out.append(dict(fail("prop", "Pascal's rule violated: C(n,k) != C(n-1,k-1)+C(n-1,k)", "n=%d k=%d" % (n, k)), req="c06.binom %d %d" % (n, k)))
     # Gamma(x+1) = x Gamma(x), GammaLn(x+1) = GammaLn(x) + log x
     for x, r0, r1, l0, l1 in ctx["recur"]:
@@ -682,7 +698,7 @@ def finalize(ctx, exe):
         g0, g1, ln0, ln1 = [fl(toks(v)[0]) for v in g]
         if math.isfinite(g1) and g1 > 0:
             sc = 2 + abs(ln0) + abs(ln1)
-            if not ratio(ctx, "Gamma(x+1)=x Gamma(x)", abs(Fraction(g1) - Fraction(x) * Fraction(g0)), K_REC * EPS * Fraction(g1) * Fraction(sc)):
+            if not ratio(ctx, "Gamma(x+1)=x Gamma(x)", abs(Fraction(g1) - Fraction(x) * Fraction(g0)), ULP_GREC * 2 * EPS * Fraction(g1)):
                 out.append(dict(fail("prop", "recurrence Gamma(x+1) = x*Gamma(x) violated beyond rounding", "x=%r %r vs %r" % (x, g1, x * g0)), req=r0))
         if not ratio(ctx, "GammaLn(x+1)=GammaLn(x)+log x", abs(mpf(ln1) - mpf(ln0) - mpmath.log(mpf(x))), K_REC * EPSF * (2 + abs(ln0) + abs(ln1) + abs(math.log(x)))):
             out.append(dict(fail("prop", "recurrence GammaLn(x+1) = GammaLn(x)+log x violated beyond rounding", "x=%r" % x), req=l0))
@@ -703,7 +719,7 @@ def finalize(ctx, exe):
             if wrong <= 0:
                 continue
             lx = abs(math.log(pts[i + 1])) if pts[i + 1] > 0 else 0
-            slack = K_Q * EPSF * (1 + (pts[i + 1] + a * lx + abs(float(mpmath.loggamma(a))) + 8) * min(1.0, max(vals[i], vals[i + 1], 1 - vals[i]))) if a <= 100 else TOL_A_LARGE
+            slack = K_MONO * EPSF * (1 + (pts[i + 1] + a * lx + abs(float(mpmath.loggamma(a))) + 8) * min(1.0, max(vals[i], vals[i + 1], 1 - vals[i]))) if a <= 100 else MONO_A_LARGE
             if not ratio(ctx, "monotone in x (a%s100)" % ("<=" if a <= 100 else ">"), wrong, slack):
                 out.append(dict(fail("prop", "Gamma%s is not monotone in x" % ("Q" if sgn < 0 else "P"),
                                      "a=%r x=%r -> %r, x=%r -> %r" % (a, pts[i], vals[i], pts[i + 1], vals[i + 1])), req=reqs[i + 1]))
